@@ -219,7 +219,12 @@ def gen_commands(rng, voc, n, weights, spell_gdb=False):
             text = word
             if rng.random() < 0.8:
                 m = R.gen_matcher(rng, voc, p_const=0.15)
-                text += ' ' + R.render(m)
+                if m['kind'] == 'list' and m['excl'] and rng.random() < 0.35:
+                    # exclusions only: everything recorded except ... (whatever the current filter is, which a listing never touches)
+                    m = {'kind': 'list', 'alts': [], 'excl': m['excl']}
+                    text += ' ! ' + ', '.join(R.render_pattern(p) for p in m['excl'])
+                else:
+                    text += ' ' + R.render(m)
             cap = None
             if rng.random() < 0.5:
                 cap = rng.choice([0, 1, 1, 2, 3, 5, 10, 1000])
